@@ -498,6 +498,13 @@ static bool ts_parser__can_reuse_first_leaf(
   // Empty tokens are not reusable in states with different lookaheads.
   if (ts_subtree_size(tree).bytes == 0 && leaf_symbol != ts_builtin_sym_end) return false;
 
+  // A word token that was lexed under a different set of reserved words may
+  // be a reserved word in this state.
+  if (
+    leaf_symbol == self->language->keyword_capture_token &&
+    leaf_lex_mode.reserved_word_set_id != current_lex_mode.reserved_word_set_id
+  ) return false;
+
   // If the current state allows external tokens or other tokens that conflict with this
   // token, this token is not reusable.
   return current_lex_mode.external_lex_state == 0 && table_entry->is_reusable;
